@@ -10,8 +10,45 @@ from vlib import deckgen, layout
 from vlib.runner import Check, Discard, sha
 from vlib.probe import LibError
 
-SHIPPED = sorted(glob.glob(os.path.join(deckgen.REPO, "tests", "*.DATA")) +
-                 glob.glob(os.path.join(deckgen.REPO, "tests", "parser", "data", "integration_tests", "*", "*.DATA")))[:0]
+SHIPPED = sorted(glob.glob(os.path.join(deckgen.REPO, "tests", "*.DATA")))
+SECTIONS = ("RUNSPEC", "GRID", "EDIT", "PROPS", "REGIONS", "SOLUTION", "SUMMARY", "SCHEDULE")
+
+
+def rewrite_shipped(text, ints):
+    """line-level, meaning-preserving rewrites of a shipped deck (no item structure known):
+    R1 comment lines / trailing comments, R2 blank lines, R3 trailing blanks and tabs, R6 text after a lone
+    terminating slash, R7 moving whole sections into INCLUDE files.  -> (root text, {include name: text}, rules)"""
+    from vlib.schedcut import strip_comment
+    ch = layout.Choices(ints)
+    lines = text.split("\n")
+    out = []
+    prev_title = False
+    for ln in lines:
+        bare = strip_comment(ln).strip()
+        if not prev_title:
+            if ch.chance(1, 15, "R2-blank"):
+                out.append("")
+            if ch.chance(1, 15, "R1-comment"):
+                out.append(layout.COMMENTS[ch.n(len(layout.COMMENTS))])
+            if bare == "/" and ch.chance(1, 4, "R6-tail"):
+                ln = ln.rstrip() + " " + layout.TAILS[ch.n(len(layout.TAILS))]
+            elif bare and "'" not in ln and '"' not in ln and "--" not in ln and ch.chance(1, 12, "R1-comment"):
+                ln = ln + "  " + layout.COMMENTS[ch.n(len(layout.COMMENTS))]
+            elif ch.chance(1, 12, "R3-space"):
+                ln = ln + " \t "
+        prev_title = bare.upper() == "TITLE"
+        out.append(ln)
+    incs = {}
+    if ch.chance(1, 2, "R7-include"):
+        # move one whole section (from its header line to the line before the next section header) into a file
+        heads = [i for i, l in enumerate(out) if strip_comment(l).strip().upper() in SECTIONS and l[:1] not in " \t"]
+        if len(heads) >= 3:
+            k = 1 + ch.n(len(heads) - 2)
+            a, b = heads[k], heads[k + 1]
+            name = "_vc01_inc_%d.inc" % os.getpid()
+            incs[name] = "\n".join(out[a:b]) + "\n"
+            out = out[:a] + ["INCLUDE", " '%s' /" % name] + out[b:]
+    return "\n".join(out), incs, dict(ch.used)
 
 
 def ulp_close(a_hex, b_hex, n=2):
@@ -137,7 +174,17 @@ class C01(Check):
     def strategy(self, tier):
         return case_strategy()
 
+    def enumerate(self, tier):
+        nlay = 2 if tier == "quick" else 12
+        for p in SHIPPED:
+            for k in range(nlay):
+                h = int(sha([os.path.basename(p), k], 8), 16)
+                ints = [(h >> (i % 24)) * 2654435761 % 65537 for i in range(60)]
+                yield {"shipped": os.path.relpath(p, deckgen.REPO), "ints": ints}
+
     def classify(self, case):
+        if "shipped" in case:
+            return True, "shipped:%s:%s" % (case["shipped"], sha(case["ints"], 6)), ["shipped-deck"]
         deck = case["deck"]
         labels = []
         rules = set()
@@ -167,6 +214,8 @@ class C01(Check):
         return nontriv, fp, labels
 
     def sample_view(self, case):
+        if "shipped" in case:
+            return {"shipped": case["shipped"]}
         files, root, used = layout.render(case["deck"], case["la"])
         return {"layout_A": files, "rules_A": used, "keywords": [k["name"] for k in case["deck"]["kws"]]}
 
@@ -175,7 +224,47 @@ class C01(Check):
             return P.call("parse", text=files[root])["deck"]
         return P.call("parse", files=files, root=root)["deck"]
 
+    def check_shipped(self, case, ctx):
+        P = ctx.P
+        p = os.path.join(deckgen.REPO, case["shipped"])
+        text = open(p, encoding="latin-1").read()
+        if "PYINPUT" in text or "PYACTION" in text:
+            raise Discard()
+        try:
+            base = P.call("parse", path=p, ctx="default")["deck"]
+        except LibError:
+            raise Discard()          # a shipped deck that does not parse on its own
+        root, incs, used = rewrite_shipped(text, case["ints"])
+        d = os.path.dirname(p)
+        tmp = os.path.join(d, "_VC01_%d.DATA" % os.getpid())
+        written = [tmp]
+        try:
+            with open(tmp, "w", encoding="latin-1") as f:
+                f.write(root)
+            for name, t in incs.items():
+                written.append(os.path.join(d, name))
+                with open(written[-1], "w", encoding="latin-1") as f:
+                    f.write(t)
+            for k in used:
+                ctx.label("shipped:" + k)
+            try:
+                other = P.call("parse", path=tmp, ctx="default")["deck"]
+            except LibError as e:
+                return {"rule": "layout: a meaning-preserving rewrite of a shipped deck is rejected", "key": None,
+                        "detail": {"deck": case["shipped"], "rules": used, "error": str(e)[:500]}}
+        finally:
+            for w in written:
+                if os.path.exists(w):
+                    os.unlink(w)
+        diff = first_diff(base, other)
+        if diff:
+            return {"rule": "layout: Deck of a shipped deck differs after a meaning-preserving rewrite", "key": None,
+                    "detail": {"deck": case["shipped"], "where": diff[0], "original": diff[1], "rewritten": diff[2], "rules": used}}
+        return None
+
     def check(self, case, ctx):
+        if "shipped" in case:
+            return self.check_shipped(case, ctx)
         P = ctx.P
         deck = case["deck"]
         cfiles, root, _ = layout.render(deck, canonical=True)
